@@ -576,7 +576,7 @@ func (session *HermesSession) Run(workingDir string, args []string, logID string
 			verifDayStartProbe(&g, &hermesWaterVar, &nitroSharedVars, &cropSharedVars, ZEIT, WDT)
 			var STEPS float64
 			if WDT < g.DT.Num {
-				STEPS = g.DT.Num / WDT
+				STEPS = math.Round(g.DT.Num / WDT)
 			} else {
 				STEPS, WDT = 1, 1
 			}
